@@ -144,15 +144,22 @@ def one(rec, t, ti, name, obj, mode):
     except Unsupported as e:
         want, pred = None, e
     rec.case((ti, name, repr(obj), mode), nontrivial=bool(want) or pred is not None)
+    # every fourth value passes enum-typed fields as plain integers (the serializer converts with int() and
+    # compares the switch field with ==, so an equal integer must select the same case)
+    br.enum_as_int = (rec.evals % 4 == 3)
     try:
         real = br.build(obj)
     except Exception as e:
+        br.enum_as_int = False
         if isinstance(pred, Unsupported):
             rec.count("unsupported-values")
             return None
         case["xml"] = t.files
         rec.violation(classify_ctor(e, obj, t), "tree %d: constructor of %s raised %r for the reference-valid value %r" % (ti, name, e, obj), case)
         return ("ctor", type(e).__name__)
+    if br.enum_as_int:
+        rec.count("values-with-enums-as-plain-ints")
+    br.enum_as_int = False
     if isinstance(pred, Unsupported):
         rec.count("unsupported-values")
         return None
